@@ -487,6 +487,21 @@ func (e *Env) trCall(n *ast.CallExpr) TVal {
 			return e.fail("calls(%q) is only available in the contract of the calling function", tg)
 		}
 		return TVal{T: e.st.get(comp), Sort: "Int"}
+	case "allok":
+		// allok("<target>[@k]", i): every call of <target> made so far by this activation returned true as result i
+		if !need(2) {
+			return TVal{T: "true", Sort: "Bool"}
+		}
+		lit, ok := n.Args[0].(*ast.BasicLit)
+		if !ok {
+			return e.fail("allok: first argument is a string literal naming the callee")
+		}
+		tg, _ := strconv.Unquote(lit.Value)
+		a, ok := e.x.accWant[tg]
+		if !ok {
+			return e.fail("allok(%q, i) is only available in the contract of the calling function", tg)
+		}
+		return TVal{T: e.st.get(a.comp), Sort: "Bool"}
 	case "result":
 		// result("<target>@k", i): the i-th result of that call of the activation under contract
 		// (meaningful only on paths through the call: guard with calls("<target>@k") == 1)
